@@ -221,7 +221,7 @@ def run_cases(name, imports, ty, func, cases, prelude="", extra="", shard=400, t
                 raise BuildError(f"cannot find result in output of {fn}", out[-4000:])
             idxs = [int(x) for x in re.findall(r"\d+", m.group(1))]
             bad += [i * shard + j for j in idxs]
-            for k, v in re.findall(r"(\w+)\s*=\s*(\d+)\s*:\s*nat", out):
+            for k, v in re.findall(r"(\w+)\s*=\s*(\d+)(?:%nat)?\s*:\s*nat", out):
                 extras[k] = extras.get(k, 0) + int(v)
     return sorted(bad), extras, time.time() - t0
 
